@@ -385,8 +385,10 @@ func c16GenSafeMap(r *verifh.Rng) []verifh.Section {
 		// Set switches to dirtyNew, deletions from dirtyNew reach maxDeletion (merge back), then the
 		// old generation shrinks below copyThreshold (merge forward)
 		{
-			big := copyThreshold + r.Range(20, 120)
 			hot := r.Range(5, 60)
+			const pool = 10
+			// the old generation keeps at least copyThreshold keys after the hot keys and the pool have moved
+			big := copyThreshold + hot + pool + r.Range(20, 100)
 			var ops []string
 			val := 1
 			for j := 0; j < big; j++ {
@@ -402,6 +404,15 @@ func c16GenSafeMap(r *verifh.Rng) []verifh.Section {
 					}
 					ops = append(ops, fmt.Sprintf("set %d %d", k, val))
 					val++
+					if r.Chance(1, 60) {
+						ops = append(ops, fmt.Sprintf("get %d", k))
+					}
+					if r.Chance(1, 40) {
+						// overwrite a key without deleting it first: after the switch it moves old -> new
+						k2 := hot + r.Intn(pool)
+						ops = append(ops, fmt.Sprintf("set %d %d", k2, val), fmt.Sprintf("get %d", k2))
+						val++
+					}
 					if r.Chance(1, 400) {
 						ops = probe(ops, big)
 					}
